@@ -117,6 +117,32 @@ def cases(ctx: Ctx):
         for op1 in (("refresh",) if q else ("refresh", "apply", "toggle_display")):
             for op2 in (OPS if not q else [OPS[(len(f) + k) % 5] for k in range(2)] + ["apply"]):
                 out.append((f"seq:{op1}>{op2}", [f], f"{op1} answered with {len(f)}-byte {f[10]:02x} frame, then {op2}"))
+    # 9. every known property id with every value (quick: boundary values), in a 0xB1 reply and a 0xB0 acknowledgement
+    def pf1(pid, val, rid):
+        body = bytes([rid, 1, pid & 0xFF, pid >> 8, 0, len(val)]) + bytes(val)
+        return acdev.resp_frame(3, body, "crc")
+    pvals = range(256) if not q else [0, 1, 2, 3, 4, 5, 6, 24, 25, 26, 49, 50, 51, 99, 100, 101, 127, 128, 254, 255]
+    for pid in (0x09, 0x0A, 0x15, 0x18, 0x1A, 0x39, 0x42, 0x43, 0x48, 0x4B, 0xE3, 0x021E, 0x0227):
+        for v in pvals:
+            val = [v] if pid != 0xE3 else [1, v]
+            out.append((["refresh", "apply", "start_self_clean"][(pid + v) % 3], [pf1(pid, val, 0xB1 if v % 2 else 0xB0), good_state(rng)], f"prop{pid:04x}={v}+good"))
+    # 10. capability records with every size 0..10 as the LAST record of a response that ends right behind it (and one byte earlier / later)
+    for rid, data in ((0x0225, [34, 60, 34, 60, 34, 60, 1, 0, 0, 0]), (0x0214, [1] + [0] * 9), (0x0210, [7] + [0] * 9), (0x0043, [1] + [0] * 9), (0x0216, [3] + [0] * 9)):
+        for sz in range(0, 11):
+            rec = bytes([rid & 0xFF, rid >> 8, sz]) + bytes(data[:sz])
+            for extra in (b"", b"\x00", b"\x00\x00"):
+                for cut in (0, 1):
+                    body = bytes([0xB5, 2, 0x12, 0x02, 1, 1]) + rec[:len(rec) - cut] + (extra if not cut else b"")
+                    f = acdev.resp_frame(3, body, "crc")
+                    for op in (("get_capabilities", "refresh") if not q else ("get_capabilities",)):
+                        out.append((op, [f, good_state(rng)], f"caps-last-record-{rid:04x}-size{sz}-cut{cut}-tail{len(extra)}+good"))
+    # 11. a decodable capabilities response with unusual VALUES first, then the other operations with a normally answering unit
+    for rid, vals in ((0x0210, [0, 2, 8, 9, 255]), (0x0214, [0, 4, 5, 6, 7, 8, 10, 255]), (0x0215, [4, 5, 255]), (0x0225, [0, 255]), (0x0216, [0, 1, 255]), (0x021F, [0, 4, 255])):
+        for v in vals:
+            data = [v] if rid != 0x0225 else [v, v, v, v, v, v, 1]
+            f = acdev.resp_frame(3, bytes([0xB5, 1, rid & 0xFF, rid >> 8, len(data)]) + bytes(data) + bytes([0, 0]), "crc")
+            for op2 in ("refresh", "apply", "toggle_display", "start_self_clean"):
+                out.append((f"seq:get_capabilities>{op2}", [f], f"capabilities {rid:04x}={v}, then {op2}"))
     # 8. property responses mixed with undecodable / empty / foreign property frames in ONE exchange
     def pf(recs, ftype=3, style="crc", rid=0xB1, count=None):
         body = bytes([rid, len(recs) if count is None else count])
